@@ -119,3 +119,20 @@ def centered_test_test_kernel(K_VV, K_VN, weights, K_fit_all, scale):
     # divided by the normaliser's scale
     cols = np.average(K_VN, weights=weights, axis=1)
     return (K_VV - cols[:, np.newaxis] - cols[np.newaxis, :] + K_fit_all) / scale
+
+
+def leading_components_arpack(mat, k, tol, v0):
+    # ARPACK returns the k largest singular triplets in ASCENDING order: all three
+    # factors are reversed together before the sign fix
+    from scipy.sparse.linalg import svds
+
+    U, S, Vt = svds(mat, k=k, tol=tol, v0=v0)
+    S = S[::-1]
+    U, Vt = svd_flip(U[:, ::-1], Vt[::-1])
+    return U, S, Vt
+
+
+def leading_components_randomized(mat, k, n_iter, random_state):
+    from sklearn.utils.extmath import randomized_svd
+
+    return randomized_svd(mat, n_components=k, n_iter=n_iter, flip_sign=True, random_state=random_state)
